@@ -33,6 +33,9 @@ CHECKS = {
     'C04': dict(category='exploration', technique='exhaustive enumeration of rule shapes / grammar families / recursive templates x weightings x all start assignments against an exact max-times Kleene oracle; harness-side structural validation of the derivation',
                 text='For every grammar of the bounded families (all single-rule shapes up to 3 nodes / 3 edges in two node orders, a multi-nonterminal family, eight recursive templates with all weightings over {0,1/4,1/2,1,2}) and every start assignment with a finite, attained optimum, the real viterbi() result is validated structurally by harness code and its weight (from the rule instances and from derive()) compared with the exact optimum and with the Viterbi-semiring sum_product.',
                 note='Trusted: exact max-times Kleene iteration (mc.oracles). One known finding (K01: tie through a weight-one cycle makes reconstruct recurse forever) is matched by signature and reported as KNOWN-FINDING.', design='3/C04'),
+    'C02': dict(category='exploration', technique='exhaustive enumeration of recursive templates x all weightings over a 5-value alphabet x semiring x method x tolerances/budgets against Kleene-iteration oracles (exact for Bool/Viterbi, 50-digit for Real/Log)',
+                text='Nine recursive templates (incl. a nonterminal whose sparsity pattern grows during iteration) with every weighting of up to 3 (thorough 4) entries over {0,1/4,1/2,1,2}, domain sizes 1-2, are solved by the real sum_product under every semiring, method and three tolerances, plus starved iteration budgets; the result is compared with the least fixed point computed by Kleene iteration on the IR within an explicit a-priori error bound, method=linear must raise ValueError exactly on non-linear grammars, and an unconverged result without a warning is a violation.',
+                note='Grammars whose Real/Log least fixed point the 50-digit Kleene iteration cannot classify (critical, rho ~ 1) are excluded and counted, except the closed-form critical case x = a x^2 + b. Known finding K02 (Viterbi newton, tight cycle + rounding).', design='3/C02'),
 }
 
 ALL = ['C%02d' % i for i in range(1, 21)]
